@@ -2,7 +2,10 @@ module sidever
 
 go 1.19
 
-require github.com/trustbloc/sidetree-core-go v0.0.0
+require (
+	github.com/gorilla/mux v1.8.0
+	github.com/trustbloc/sidetree-core-go v0.0.0
+)
 
 require github.com/multiformats/go-base32 v0.0.3 // indirect
 
